@@ -63,12 +63,14 @@ _C_STUBS = ["FakeFdStream scripted kernel (harness/_iostream_rig.py); right afte
             "connect-pending state set by FakeFdStream.fake_connect (mirrors IOStream.connect's state changes; "
             "BaseIOStream has no connect)",
             "stream content concrete (C11's 18-byte DATA), positions / sizes / parameters symbolic",
-            "pre-state: 1 byte consumed, b0 bytes buffered, built through the real API"]
+            "pre-state: 1 byte consumed, b0 bytes buffered, built through the real API",
+            "tornado loggers disabled by the rig (log output is not part of the property; the logging machinery "
+            "under the tracer multiplied paths)"]
 
 
 @harness(
     pre=pre_close,
-    quick=dict(B0=1, NB=2, MB=2, K=1, T=1, L=1, timeout=100, reach_timeout=60),
+    quick=dict(B0=1, NB=2, MB=2, K=1, T=1, L=2, timeout=100, reach_timeout=60),
     thorough=dict(B0=1, NB=3, MB=3, K=2, T=1, L=2, timeout=1500, reach_timeout=120),
     nshards=dict(quick=70, thorough=70),
     classify=lambda **a: _classify(h_close_read, a),
